@@ -146,6 +146,13 @@ func knownStep(rec *ev.Rec, s *dbgen.Session, st *dbgen.Step) bool {
 			return true
 		}
 	}
+	if st.Kind == dbgen.KAdmin && dbgen.AlterDropKeyInsideUnique(w, st.Admin) {
+		if e, ok := kf.Known("C21", "alter-drop-key-stale-containskey"); ok {
+			rec.Excluded("alter-drop-key-stale-containskey")
+			rec.Known(e.What)
+			return true
+		}
+	}
 	if st.Kind == dbgen.KAdmin && dbgen.RenamesLowerBase(w, st.Admin) {
 		if e, ok := kf.Known("C21", "rename-lower-base"); ok {
 			rec.Excluded("rename-lower-base")
